@@ -1,1 +1,2 @@
 // reference models shared between properties
+pub mod align;
